@@ -396,7 +396,7 @@ def c05(ctx):
 
 
 def c07(ctx):
-    files = parser_trees(ctx, STRICT_TREES + SURR_TREES) + byte_trees(ctx) + parser_graph(ctx) + [nest_bytes(ctx)['out']]
+    files = parser_trees(ctx, STRICT_TREES + SURR_TREES) + byte_trees(ctx) + parser_graph(ctx) + [nest_bytes(ctx)['out'], messages(ctx)]
     ctx.replay(files, ['C07.'])
     parser_trace(ctx, ['C07.'])
     # every scalar in 15 syntactic contexts (after a number, inside a literal, after a key ...): the error offset and character
@@ -411,6 +411,11 @@ def c12(ctx):
     parser_trace(ctx, ['C12.'])
     sweeps(ctx, ['esc_u', 'esc_pair', 'raw_str', 'esc_ascii'], 'C12.sweep',
            'outcome of an escape / escape pair under the lenient options differs from the specification (run-compressed exhaustive sweep)')
+
+
+def messages(ctx):
+    """Messages.tla: every error value of a small domain with its text, accessors and source (extension aspect X02.message)"""
+    return ctx.mc('messages', 'MC_Messages', {}, {}, ['Dump', 'Sane'], spec='MSpec')['out']
 
 
 def nest_bytes(ctx):
@@ -479,7 +484,7 @@ def object_walks(ctx):
 def c06(ctx):
     r = object_graph(ctx)
     w = object_walks(ctx)
-    ctx.replay([r['out'], w['out']], ['C06.'])
+    ctx.replay([r['out'], w['out'], messages(ctx)], ['C06.'])
     runs = 1 if ctx.quick else 8
     n = 600 if ctx.quick else 3000
     for i in range(runs):
@@ -643,7 +648,7 @@ def c11(ctx):
     r = ctx.mc(f'conv_{ctx.tier}', 'MC_Conv', consts, {'Depth': 2, 'Width': 2}, ['Dump', 'ErrInRange'], spec='CSpec')
     fi = ctx.mc(f'fragiter_{ctx.tier}', 'MC_FragIter', {'Keys': '{<<97>>}' if ctx.quick else '{<<97>>, <<98>>}', 'Leaves': '{VNull, VNum(<<49>>)}'},
                 {'Depth': 2, 'Width': 2}, ['Dump', 'ExactlyOnce', 'Bounded', 'Preorder', 'Volumes'], spec='FSpec')
-    ctx.replay(files + [r['out'], fi['out']], ['C11.'])
+    ctx.replay(files + [r['out'], fi['out'], messages(ctx)], ['C11.'])
     trace, s = ctx.record('record-nav', 'nav.ndjson', ['--n', 200 if ctx.quick else 4000])
     reasons_trace(ctx, 'nav', 'TraceNav', trace, lambda ev, why: 'C11.trace_' + why,
                   lambda ev, why: f'recorded navigation of a generated document differs from CodeMapNav ({why})', rec_summary=s)
